@@ -106,3 +106,31 @@ pub proof fn lemma_inverse(m: M3)
 }
 ''')
     return ''.join(out)
+
+
+def mulvec_assoc_lemma():
+    """F.(D.v) == (F*D).v  as three generated polynomial identities (9 + 9 + 3 atoms)."""
+    F = [[Atom(f'f{i}{j}') for j in range(3)] for i in range(3)]
+    D = [[Atom(f'd{i}{j}') for j in range(3)] for i in range(3)]
+    v = [Atom('vx'), Atom('vy'), Atom('vz')]
+    params = ', '.join(f'f{i}{j}: real' for i in range(3) for j in range(3)) + ', ' + ', '.join(f'd{i}{j}: real' for i in range(3) for j in range(3)) + ', vx: real, vy: real, vz: real'
+    out = []
+    for i in range(3):
+        Dv = [D[k][0] * v[0] + D[k][1] * v[1] + D[k][2] * v[2] for k in range(3)]
+        lhs = F[i][0] * Dv[0] + F[i][1] * Dv[1] + F[i][2] * Dv[2]
+        FD = [F[i][0] * D[0][j] + F[i][1] * D[1][j] + F[i][2] * D[2][j] for j in range(3)]
+        rhs = FD[0] * v[0] + FD[1] * v[1] + FD[2] * v[2]
+        out.append(identity_proof(f'poly_assoc_row{i}', params, lhs, rhs)[0])
+    fa = ', '.join(f'f.{ROWS[i]}.{COLS[j]}' for i in range(3) for j in range(3))
+    da = ', '.join(f'd.{ROWS[i]}.{COLS[j]}' for i in range(3) for j in range(3))
+    out.append(f"""
+pub proof fn lemma_mulvec_assoc(f: M3, d: M3, v: V3)
+    ensures m3_mulvec(f, m3_mulvec(d, v)) == m3_mulvec(m3_mul(f, d), v)
+{{
+    poly_assoc_row0({fa}, {da}, v.x, v.y, v.z); poly_assoc_row1({fa}, {da}, v.x, v.y, v.z); poly_assoc_row2({fa}, {da}, v.x, v.y, v.z);
+}}
+pub proof fn lemma_id_mulvec(v: V3)
+    ensures m3_mulvec(m3_id(), v) == v
+{{ pp_one(v.x); pp_one(v.y); pp_one(v.z); pp_zero(v.x); pp_zero(v.y); pp_zero(v.z); }}
+""")
+    return ''.join(out)
